@@ -192,10 +192,17 @@ Definition regwidth := regop -> N.
 Definition regop_is_new (r : regop) : bool :=
   match r with RIsa _ _ n | RExpl _ _ n | RAlias _ n => n | RNreg _ => true | RParam _ => false end.
 
+(* destination-only operands (letters d, e): QEMU's helpers start them at 0; what the new bank holds
+   before the instruction's own write is plugin-defined, so the oracle uses the same value on both
+   sides and never raises a contract-dependent difference *)
+Definition regop_dest_only (r : regop) : bool :=
+  match r with RIsa _ l false => String.eqb l "d" || String.eqb l "e" | _ => false end.
+
 Definition read_reg (rw : regwidth) (s : mstate) (r : regop) (new : bool) : val :=
   if new then VBv (rw r) (wrap (rw r) (match lookup_reg r (rnew s) with
                                         | Some v => v
-                                        | None => if regop_is_new r then rnew0 s r else rold s r end))
+                                        | None => if regop_is_new r then rnew0 s r
+                                                  else if regop_dest_only r then 0 else rold s r end))
   else VBv (rw r) (wrap (rw r) (match lookup_reg r (rnew s) with Some v => v | None => rold s r end)).
 (* Contract (T4, DESIGN 3.4): READ_REG(op, false) yields the value this instruction last wrote to op,
    if any, else the old bank; READ_REG(op, true) yields the new bank.  This is the lenient reading:
